@@ -323,6 +323,27 @@ func c17Prop(t *testing.T, k *verifkit.Kit) func(c c17Case) error {
 		if hasDep {
 			cls = append(cls, "deprecated")
 		}
+		modes := map[string]bool{}
+		afterAdv := false
+		for i, ri := range ref.Cfg.Interfaces {
+			switch {
+			case ri.Advertise:
+				modes["advertise"] = true
+			case ri.Monitor:
+				modes["monitor"] = true
+			default:
+				modes["idle"] = true
+			}
+			if !ri.Advertise && i > 0 && ref.Cfg.Interfaces[i-1].Advertise {
+				afterAdv = true
+			}
+		}
+		if len(modes) > 1 {
+			cls = append(cls, "mixed-interface-modes")
+		}
+		if afterAdv {
+			cls = append(cls, "non-advertising-after-advertising")
+		}
 		k.Record(c, hasP64 || ((hasWild || hasDep) && len(points) >= 2), cls...)
 
 		if promPanic != "" {
@@ -616,7 +637,9 @@ func c17CompareJSON(ra *ndp.RouterAdvertisement, raw json.RawMessage) error {
 
 func c17Gen(t *rapid.T) c17Case {
 	g := &vg{t: t}
-	d := g.genDoc(true, 0)
+	// a mix of advertising, monitoring and idle interfaces in any order (the first
+	// document in three is all-advertising)
+	d := g.genDoc(rapid.IntRange(0, 2).Draw(t, "all-advertise") == 0, 0)
 	s := int64(time.Second)
 	c := c17Case{Doc: d, State: genSysState(t)}
 	c.State.NowNS = 0
